@@ -1560,6 +1560,14 @@ class FileSet:
             p: self._remove_group_capturing(p, v)
             for p, v in self._user_placeholder.items()
         }
+        # The regex of a placeholder can only stand for its filling if it is
+        # a plain text (the characters in _special_chars that are looked for
+        # below do not cover regexes such as `.+`):
+        for p in set(re.findall(r"{(\w+)}", template)) & set(default_fill):
+            if p not in (fill or {}) \
+                    and set(default_fill[p]) & set(".^$*+?{}[]\\|()"):
+                raise UnfilledPlaceholderError(self.name, p)
+
         if fill is None:
             fill = default_fill
         else:
